@@ -1139,7 +1139,8 @@ pub(crate) fn c05_hist<A: Allocator>(fl: Freelist) {
   let arena: A = Options::new().with_capacity(CAP).with_unify(true).with_freelist(fl).with_maximum_retries(1).with_minimum_segment_size(8).alloc::<A>().unwrap();
   let dofs = arena.data_offset() as u32;
   let (n1, n2, n3): (u32, u32, u32) = (kani::any(), kani::any(), kani::any());
-  kani::assume(n1 >= 1 && n1 <= 9 && n2 >= 17 && n2 <= 32 && n3 >= 1 && n3 <= 12);
+  // n3 = the tail left above the cursor (0..=12): small, so that requests larger than it must come from the freed range
+  kani::assume(n1 >= 1 && n1 <= 9 && n2 >= 17 && n2 <= 32 && n3 <= 12);
   let (va, vc, vd): (u8, u8, u8) = (kani::any(), kani::any(), kani::any());
   kani::assume(va != 0 && vc != 0 && vd != 0);
   let p = arena.raw_mut_ptr();
@@ -1147,7 +1148,9 @@ pub(crate) fn c05_hist<A: Allocator>(fl: Freelist) {
   {
     let mut a = arena.alloc_bytes(n1).unwrap();
     let b = arena.alloc_bytes(n2).unwrap();
-    let mut c = arena.alloc_bytes(n3).unwrap();
+    let rest = arena.remaining() as u32;
+    kani::assume(rest > n3);
+    let mut c = arena.alloc_bytes(rest - n3).unwrap();
     ea = (a.offset() as u32, a.capacity() as u32);
     eb = (b.buffer_offset() as u32, b.buffer_capacity() as u32);
     ec = (c.offset() as u32, c.capacity() as u32);
@@ -1163,6 +1166,7 @@ pub(crate) fn c05_hist<A: Allocator>(fl: Freelist) {
     drop(b);
   }
   let cur0 = arena.allocated();
+  assert!(cur0 as u32 + n3 == CAP, "ENC: tail above the cursor");
   // arbitrary bytes above the cursor
   let junk: u8 = kani::any();
   unsafe { core::ptr::write_bytes(p.add(cur0), junk, CAP as usize - cur0) };
@@ -1216,13 +1220,13 @@ pub(crate) fn c05_hist<A: Allocator>(fl: Freelist) {
   kani::cover!(g.ok && h.ok, "both follow-up allocations succeed");
   core::mem::forget(arena);
 }
-// @h props=C05,C08 tier=thorough timeout=2400 mem=20 bounds=CAP=128,unify,history=a(1..9)b(17..32)c(1..12)-drop(b)-reopen-alloc(1..40)-reopen-alloc(1..40)
+// @h props=C05,C08 tier=thorough timeout=2400 mem=20 bounds=CAP=128,unify,history=a(1..9)b(17..32)c(rest-tail)tail(0..12)-drop(b)-reopen-alloc(1..40)-reopen-alloc(1..40)
 #[kani::proof]
 #[kani::unwind(4)]
 fn c05_hist_two_cycles_unsync_opt() {
   c05_hist::<unsync::Arena>(Freelist::Optimistic);
 }
-// @h props=C05,C08 tier=thorough timeout=2400 mem=20 bounds=CAP=128,unify,history=a(1..9)b(17..32)c(1..12)-drop(b)-reopen-alloc(1..40)-reopen-alloc(1..40),retries=1
+// @h props=C05,C08 tier=thorough timeout=2400 mem=20 bounds=CAP=128,unify,history=a(1..9)b(17..32)c(rest-tail)tail(0..12)-drop(b)-reopen-alloc(1..40)-reopen-alloc(1..40),retries=1
 #[kani::proof]
 #[kani::unwind(4)]
 fn c05_hist_two_cycles_sync_pess() {
